@@ -334,7 +334,7 @@ func (c *Ctx) verify() {
 		fr.regs[fv] = v
 		name := fv.Name()
 		if name == "_" {
-			name = fmt.Sprintf("_%d", blanks)
+			name = blankFreeVarName(fn, fv, blanks)
 			blanks++
 		}
 		c.paramAssumptions(s, name, v, c.fc)
@@ -354,6 +354,9 @@ func (c *Ctx) verify() {
 			c.assumptions["range-over-func: iterators call the loop body only in the ready state (jump == 0)"] = true
 			cur := c.loadAt(s, nil, v, fv.Type().Underlying().(*types.Pointer).Elem()).(Scalar)
 			c.assume(s, fmt.Sprintf("(= %s %s)", cur.T, c.ar.idx(0)))
+			sa := SrcAddr{P: v, Ty: fv.Type()}
+			fr.src["jump"] = sa
+			env.vars["jump"] = sa
 			// the state variable itself is protocol state of the lowering, not of the program: always writable
 			if sc, ok := v.(Scalar); ok {
 				c.extraMods = append(c.extraMods, modEntry{heap: fieldHeapName("cell", "int", ""), sort: fmt.Sprintf("(Array Ref %s)", c.ar.idxSort()), kind: modSingle, ref: sc.T})
@@ -723,7 +726,43 @@ func (c *Ctx) enterBlock(s *State, fr *Frame) bool {
 	c.assume(s, fmt.Sprintf("(>= %s %s)", nb, c.allocTerm(s)))
 	s.allocBase = nb
 	s.allocCnt = 0
+	// variables of this function that live in heap cells (captured by a function literal under contract, or address
+	// taken) but which nothing inside this loop can write keep their value across the havoc
+	type keptCell struct {
+		lv LocV
+		el types.Type
+		v  Val
+	}
+	var kept []keptCell
+	for reg, rv := range fr.regs {
+		al, ok := reg.(*ssa.Alloc)
+		if !ok {
+			continue
+		}
+		lv, ok := rv.(LocV)
+		if !ok || lv.Kind != LocCell || len(lv.Proj) > 0 {
+			continue
+		}
+		if c.cellMayChangeInLoop(fr, b, al) {
+			continue
+		}
+		el := al.Type().(*types.Pointer).Elem()
+		kept = append(kept, keptCell{lv, el, c.loadAt(s, nil, lv, el)})
+	}
 	c.havocLoop(s, mods, preSnap.allocBase)
+	for _, kc := range kept {
+		c.storeAt(s, kc.lv, kc.el, kc.v)
+	}
+	// calls made by earlier iterations: their number is unknown after the havoc
+	{
+		var inl []*ssa.BasicBlock
+		for _, bb := range fr.fn.Blocks {
+			if fr.fi.inLoop[b][bb] {
+				inl = append(inl, bb)
+			}
+		}
+		c.widenCallCounts(s, c.callNamesIn(inl))
+	}
 	snap := &loopSnap{heap: s.snapshot(), allocBase: preSnap.allocBase, mods: mods, callLogLen: len(s.calllog)}
 	env = c.loopEnv(s, fr, snap)
 	if lc != nil {
@@ -797,6 +836,58 @@ func (c *Ctx) localAssignedInLoop(fr *Frame, h *ssa.BasicBlock, al *ssa.Alloc) b
 	return false
 }
 
+// cellMayChangeInLoop: can the loop with header h write the variable cell al? Yes if it stores to it, passes its address
+// to a call, creates or uses (inside the loop) a function literal that captures it, or if its address escapes anywhere.
+func (c *Ctx) cellMayChangeInLoop(fr *Frame, h *ssa.BasicBlock, al *ssa.Alloc) bool {
+	set := fr.fi.inLoop[h]
+	for _, ref := range *al.Referrers() {
+		switch r := ref.(type) {
+		case *ssa.Store:
+			if r.Val == al {
+				return true // address escapes
+			}
+			if set[r.Block()] {
+				return true
+			}
+		case *ssa.UnOp, *ssa.DebugRef:
+		case *ssa.MakeClosure:
+			if set[r.Block()] {
+				return true
+			}
+			for _, u := range *r.Referrers() {
+				if set[u.Block()] {
+					return true
+				}
+				// the closure value flows somewhere other than a direct call: it may be invoked from anywhere
+				switch uu := u.(type) {
+				case *ssa.Call:
+					isArgOrCallee := uu.Common().Value == r
+					for _, a := range uu.Common().Args {
+						if a == r {
+							isArgOrCallee = true
+						}
+					}
+					if !isArgOrCallee {
+						return true
+					}
+				case *ssa.DebugRef:
+				default:
+					return true
+				}
+			}
+		default:
+			if ref.Block() != nil && set[ref.Block()] {
+				return true
+			}
+			if _, ok := ref.(*ssa.Call); ok {
+				continue // address passed to a call outside the loop: the callee cannot run during the loop (no goroutines in the subset)
+			}
+			return true
+		}
+	}
+	return false
+}
+
 func (c *Ctx) loopContract(fn *ssa.Function, ord int) *LoopContract {
 	fc := c.fc
 	if fn != c.fn {
@@ -822,7 +913,18 @@ func (c *Ctx) loopEnv(s *State, fr *Frame, snap *loopSnap) *SpecEnv {
 }
 
 // loopMods: modifies set for a loop: explicit clause or the function's modifies.
-func (c *Ctx) loopMods(s *State, fr *Frame, lc *LoopContract, snap *loopSnap) []modEntry {
+func (c *Ctx) loopMods(s *State, fr *Frame, lc *LoopContract, snap *loopSnap) (out []modEntry) {
+	defer func() {
+		if r := recover(); r != nil {
+			if se, ok := r.(specError); ok && strings.HasPrefix(se.msg, "unknown identifier ") {
+				// a modifies target that the source no longer declares: the loop may modify anything (sound), its frame is undecided
+				c.undecide("loop frame: modifies clause " + se.msg)
+				out = []modEntry{{all: true}}
+				return
+			}
+			panic(r)
+		}
+	}()
 	var cls []*Clause
 	if lc != nil && lc.ModGiven {
 		cls = lc.Modifies
@@ -902,7 +1004,25 @@ func (c *Ctx) atReturn(s *State, fr *Frame, res Val) {
 		menv := c.newSpecEnv(s, fr)
 		menv.vars = c.entryEnvVars
 		menv.heap = map[string]string{}
-		c.checkFrame(s, map[string]string{}, append(c.evalMods(menv, c.fc.Modifies), c.extraMods...), "alloc0", "frame", "", pos)
+		var mods []modEntry
+		ok := true
+		func() {
+			defer func() {
+				if r := recover(); r != nil {
+					if se, isSE := r.(specError); isSE && strings.HasPrefix(se.msg, "unknown identifier ") {
+						// a modifies target that no longer exists: the frame is undecided (never an alarm), posts stay checked
+						c.undecide("frame: modifies clause " + se.msg)
+						ok = false
+						return
+					}
+					panic(r)
+				}
+			}()
+			mods = c.evalMods(menv, c.fc.Modifies)
+		}()
+		if ok {
+			c.checkFrame(s, map[string]string{}, append(mods, c.extraMods...), "alloc0", "frame", "", pos)
+		}
 	}
 	c.reach(s, "reach", "return", "some return reachable")
 }
@@ -995,6 +1115,10 @@ func (c *Ctx) obligeClauseAt(s *State, env *SpecEnv, kind, label string, cl *Cla
 							skip = true
 							return
 						}
+						// the clause names something the current source no longer has (a renamed or removed variable):
+						// this clause alone is undecided, the others are still checked
+						c.undecide(fmt.Sprintf("clause %s:%s names %q, which the function no longer declares", kind, label, name))
+						return
 					}
 					panic(r)
 				}
@@ -1005,8 +1129,20 @@ func (c *Ctx) obligeClauseAt(s *State, env *SpecEnv, kind, label string, cl *Cla
 		_ = skip
 		return
 	}
-	goal := env.evalBool(cl.Expr)
-	c.oblige(s, kind, label, goal, cl.Text, pos)
+	func() {
+		defer func() {
+			if r := recover(); r != nil {
+				if se, ok := r.(specError); ok && strings.HasPrefix(se.msg, "unknown identifier ") {
+					name := strings.Trim(strings.TrimPrefix(se.msg, "unknown identifier "), "\"")
+					c.undecide(fmt.Sprintf("clause %s:%s names %q, which the function no longer declares", kind, label, name))
+					return
+				}
+				panic(r)
+			}
+		}()
+		goal := env.evalBool(cl.Expr)
+		c.oblige(s, kind, label, goal, cl.Text, pos)
+	}()
 }
 
 // isLocalName: does the function under verification declare a local variable of this name?
@@ -1168,7 +1304,7 @@ func (c *Ctx) step(s *State, fr *Frame, in ssa.Instruction) []*State {
 				lv := LocV{Kind: LocLocal, Local: cell, Ty: x.Type()}
 				fr.regs[x] = lv
 				if x.Comment != "" {
-					fr.src[x.Comment] = SrcAddr{P: lv, Ty: x.Type()}
+					fr.src[allocSrcName(x)] = SrcAddr{P: lv, Ty: x.Type()}
 				}
 				return nil
 			}
@@ -1188,7 +1324,7 @@ func (c *Ctx) step(s *State, fr *Frame, in ssa.Instruction) []*State {
 			fr.regs[x] = lv
 		}
 		if x.Comment != "" {
-			fr.src[x.Comment] = SrcAddr{P: fr.regs[x], Ty: x.Type()}
+			fr.src[allocSrcName(x)] = SrcAddr{P: fr.regs[x], Ty: x.Type()}
 		}
 	case *ssa.FieldAddr:
 		p := c.val(s, x.X)
@@ -1355,7 +1491,13 @@ func (c *Ctx) onlyLocalUses(a *ssa.Alloc) bool {
 			}
 		case *ssa.UnOp, *ssa.DebugRef:
 		case *ssa.MakeClosure:
-			// captured by a closure: fine if closure is inlined; handled as local cell
+			// captured by a closure: fine if closure is inlined; handled as local cell. A function literal that is under
+			// contract is NOT inlined (its contract's modifies names the captured variable): the variable must be a heap cell.
+			if f, ok := r.Fn.(*ssa.Function); ok {
+				if fc := c.eng.contractFor(f); fc != nil && !fc.Inline {
+					return false
+				}
+			}
 		default:
 			return false
 		}
@@ -2289,4 +2431,48 @@ func balancedTerm(s string) bool {
 		}
 	}
 	return d == 0
+}
+
+
+// allocSrcName: the contract-level name of a variable cell. Unnamed results ("_") of a function are _0, _1, ... in the
+// order of their cells in the function's entry block.
+func allocSrcName(a *ssa.Alloc) string {
+	if a.Comment != "_" {
+		return a.Comment
+	}
+	k := 0
+	for _, b := range a.Parent().Blocks {
+		for _, in := range b.Instrs {
+			if o, ok := in.(*ssa.Alloc); ok && o.Comment == "_" {
+				if o == a {
+					return fmt.Sprintf("_%d", k)
+				}
+				k++
+			}
+		}
+	}
+	return "_"
+}
+
+// blankFreeVarName: a captured unnamed result gets the same name inside the function literal as in the enclosing function
+// (found through the MakeClosure that binds it); fallback: numbered by capture order.
+func blankFreeVarName(fn *ssa.Function, fv *ssa.FreeVar, fallback int) string {
+	idx := -1
+	for i, f := range fn.FreeVars {
+		if f == fv {
+			idx = i
+		}
+	}
+	if p := fn.Parent(); p != nil && idx >= 0 {
+		for _, b := range p.Blocks {
+			for _, in := range b.Instrs {
+				if mc, ok := in.(*ssa.MakeClosure); ok && mc.Fn == fn && idx < len(mc.Bindings) {
+					if a, ok := mc.Bindings[idx].(*ssa.Alloc); ok && a.Comment == "_" {
+						return allocSrcName(a)
+					}
+				}
+			}
+		}
+	}
+	return fmt.Sprintf("_%d", fallback)
 }
